@@ -80,8 +80,8 @@ def ca_of(i):
 def run_server(case):
     from hio.base import tyming
     from hio.core.tcp import serving
-    tymist = tyming.Tymist()
-    tymth = tymist.tymen()
+    tymists = {"a": tyming.Tymist(tyme=1.0), "b": tyming.Tymist(tyme=500.0)}
+    tymth = None if case.get("tymth") == "none" else tymists["a"].tymen()     # server (and its remoters) wound at birth or not
     tls = case["tls"]
     records, wl = [], None
     if case.get("wl"):
@@ -99,8 +99,8 @@ def run_server(case):
         sock.on_close = lambda s: closed.append(s.ident)
         socks[i] = sock
         if tls:
-            return serving.RemoterTls(context=c09.FakeCtx(), ha=c09.HA, ca=ca_of(i), cs=sock, bs=16, tymth=tymth, wl=wl)
-        return serving.Remoter(ha=c09.HA, ca=ca_of(i), cs=sock, bs=16, tymth=tymth, wl=wl)
+            return serving.RemoterTls(context=c09.FakeCtx(), ha=c09.HA, ca=ca_of(i), cs=sock, bs=16, tymth=tymth, wl=wl, tymeout=3.5)
+        return serving.Remoter(ha=c09.HA, ca=ca_of(i), cs=sock, bs=16, tymth=tymth, wl=wl, tymeout=3.5)
 
     config = []
     if case.get("accept"):
@@ -170,8 +170,16 @@ def run_server(case):
         for i, hx in p.get("tx", []):
             if ca_of(i) in sv.ixes:
                 sv.transmitIx(bytes.fromhex(hx), ca_of(i))
+        for t in tymists.values():
+            t.tick(0.25)
         res = ["ok", None]
         try:
+            if p.get("wind"):            # the server is (re)wound while connections exist: directly or through its doer
+                how, which = p["wind"]
+                if how == "doer":
+                    serving.ServerDoer(server=sv).wind(tymists[which].tymen())
+                else:
+                    sv.wind(tymists[which].tymen())
             if case.get("single"):      # same pass through the per-connection entry point serviceReceivesIx
                 sv.serviceConnects()
                 for ca in list(sv.ixes):
@@ -468,10 +476,10 @@ def failures(case, obs):
     if not any_raise and not out and not repeats and len(case["ix0"]) + len(case["cx0"]) > 1:
         for i in case["ix0"] + case["cx0"]:
             sub = {"scene": "server", "tls": case["tls"], "single": case.get("single", False), "wl": case.get("wl", False),
-                   "accept": case.get("accept", False),
+                   "accept": case.get("accept", False), "tymth": case.get("tymth"),
                    "ix0": [i] if i in case["ix0"] else [], "cx0": [i] if i in case["cx0"] else [],
                    "passes": [{"tx": [t for t in p.get("tx", []) if t[0] == i], "hs": [h for h in p.get("hs", []) if h[0] == i],
-                               "io": [s for s in p.get("io", []) if s[0] == i], "wlop": p.get("wlop")} for p in case["passes"]]}
+                               "io": [s for s in p.get("io", []) if s[0] == i], "wlop": p.get("wlop"), "wind": p.get("wind")} for p in case["passes"]]}
             so = run_server(sub)
             for n, (po, spo) in enumerate(zip(obs["passes"], so["passes"])):
                 mine = [e for e in po["ixes"] if e[0] == i]
@@ -631,6 +639,20 @@ def directed():
                                        {"tx": [[2, "cafe"], [1, "ff"]], "hs": [[2, ["done"]]], "io": [[1, good], [2, good], [3, good], [5, good]]},
                                        {"acc": [[2, False]], "io": [[1, good], [2, good], [3, good]]},
                                        {"hs": [[2, ["done"]]], "tx": [[2, "0102"]], "io": [[1, good], [2, good], [3, good]]}]})
+        # a server born without a tymth accepts connections, traffic flows, then it is wound (directly / by its doer),
+        # re-wound to another tymist, and traffic continues on the connections accepted before
+        for born in ("none", "own"):
+            for how in ("server", "doer"):
+                for accept in (True, False):
+                    ids = [1, 2]
+                    out.append({"scene": "server", "tls": tls, "wl": True, "accept": accept, "tymth": born,
+                                "ix0": ids if not (tls and accept) else [], "cx0": ids if (tls and accept) else [],
+                                "passes": [{"hs": [[1, ["done"]], [2, ["done"]]], "io": [[1, good], [2, good]]},
+                                           {"tx": [[1, P1], [2, P1]], "io": [[1, good], [2, good]]},
+                                           {"wind": [how, "a"], "tx": [[1, "ff"]], "io": [[1, good], [2, good]]},
+                                           {"io": [[1, good], [2, good]]},
+                                           {"wind": [how, "b"], "tx": [[2, "ee"]], "io": [[1, good], [2, good]]},
+                                           {"io": [[1, good], [2, good]]}]})
         for wlflag in (True, False):
             ids = [1, 2, 3]
             out.append({"scene": "server", "tls": tls, "wl": wlflag, "accept": True,
@@ -747,6 +769,11 @@ def gen_server(rng):
         case["single"] = True
     if (not tls or not ix0) and rng.random() < 0.6:
         case["accept"] = True        # connections created by the server's own accept servicing
+    if rng.random() < 0.5:
+        case["tymth"] = "none"            # server created without a tymth ...
+    for p in passes:
+        if rng.random() < 0.3:            # ... and wound, or re-wound to another tymist, at an arbitrary point
+            p["wind"] = [rng.choice(["server", "doer"]), rng.choice(["a", "b"])]
     if rng.random() < 0.5:
         case["wl"] = True
         for p in passes[1:]:
